@@ -850,12 +850,22 @@ async fn run_shape(shape: &Value) -> Value {
                 c.put("obs_delay", o.delay.to_seconds(), true);
             }
             Err(p) => {
-                panics.push(p);
+                // which reported quantity is not finite (the snapshot this measurement produced, if any)
+                let what = match &msg {
+                    Some(m) => format!("{p} [snapshot: offset {:e} s, offset variance {:e}, delay {:e} s]",
+                                       m.inner.state.offset(), m.inner.state.offset_variance(), m.inner.delay),
+                    None => format!("{p} [no snapshot produced by this measurement]"),
+                };
+                panics.push(what);
                 break;
             }
         }
         let Some(msg) = msg else { continue };
         let sn = msg.inner;
+        if std::env::var("VERIF_DEBUG").is_ok() {
+            eprintln!("step off={off} delay={delay}: offset {:e} var {:e} freq {:e} fvar {:e} delay {:e} wander {:e}",
+                      sn.state.offset(), sn.state.offset_variance(), sn.state.frequency(), sn.state.frequency_variance(), sn.delay, sn.wander);
+        }
         c.put("est_offset", sn.state.offset(), false);
         c.put("est_variance", sn.state.offset_variance(), true);
         c.put("est_freq", sn.state.frequency(), false);
